@@ -144,7 +144,7 @@ def cases(tier):
         progs.append({'start': 0, 'roots': [['a%d' % i, [['D', d] for d in plan]] for i, plan in enumerate(combo)]})
     # family I: run(till=...) is an absolute date, also for start times other than 0
     for st in STARTS:
-        for till in (1, 2, 0):
+        for till in (1, 2, 0, -1):      # (-1: a date before the start is never reached, the run ends at quiescence)
             for s1 in scripts(SMALL, 2, 1):
                 for s2 in ([['D', 1]], [['D', 3]], [['GE', 2], ['D', 1]], [['ETERNITY']]):
                     progs.append({'start': st, 'till': till, 'roots': [['a', s1], ['b', s2]]})
@@ -158,6 +158,19 @@ def cases(tier):
                        [['UNTIL', 'u', ['DELAY', tiny], [['D', 1]]], ['INSTANT']], [['UNTIL', 'u', ['EQ', 2 * tiny], [['D', tiny], ['D', 1]]]]):
                 for s2 in others:
                     progs.append({'start': st, 'roots': [['a', s1], ['b', s2]]})
+    # family N: dates and delays of an exact number type (fractions.Fraction) that have no exact float: the clock takes exactly
+    # these values (`time == date` holds at the resumption), whatever the backend of the time-keyed queue
+    F1, F2 = {'$': 'frac', 'n': 1, 'd': 3}, {'$': 'frac', 'n': 2, 'd': 3}
+    for st in (0, 3):
+        for s1 in ([['D', F1]], [['D', F1], ['D', F1]], [['EQ', F2]], [['GE', F1], ['INSTANT']], [['D', F1], ['EQ', F2]],
+                   [['UNTIL', 'u', ['DELAY', F1], [['D', 1]]], ['INSTANT']], [['UNTIL', 'u', ['EQ', F2], [['D', F1], ['D', 1]]]],
+                   [['D', F1], ['LT', F2]], [['D', F2], ['LT', F2]]):
+            for s2 in ([['D', F1]], [['D', 1]], [['EQ', F2]], [['D', 0.5]], [['GE', F2], ['D', F1]]):
+                for wq in (None, 'SD'):
+                    prog = {'start': st, 'roots': [['a', s1], ['b', s2]]}
+                    if wq:
+                        prog['_waitq'] = wq
+                    progs.append(prog)
     # family K: ONE condition object used in several places at once by the same activity (guard of an until block and
     # an inner wait / inner guard that is abandoned earlier) and by two activities
     for st in STARTS:
